@@ -16,22 +16,17 @@ package main
 // "ran").
 
 import (
-	"context"
 	"fmt"
 	"sort"
 	"strings"
-	"sync"
 
 	metav1 "k8s.io/apimachinery/pkg/apis/meta/v1"
 	"k8s.io/apimachinery/pkg/runtime"
 	"k8s.io/apimachinery/pkg/types"
 	"sigs.k8s.io/controller-runtime/pkg/client"
 
-	xpv1 "github.com/crossplane/crossplane-runtime/apis/common/v1"
-
 	xv1 "github.com/crossplane/crossplane/apis/apiextensions/v1"
 	pkgv1 "github.com/crossplane/crossplane/apis/pkg/v1"
-	"github.com/crossplane/crossplane/internal/controller/pkg/revision"
 )
 
 // ---------------------------------------------------------------- scenario
@@ -72,12 +67,25 @@ type c16Fault struct {
 	Out   string `json:"out"`   // fail | conflict | crashBefore | crashAfter
 }
 
+// c16XRef is a status.objectRefs entry. Kinded=false: apiVersion/kind are empty
+// (the typed client clears TypeMeta of an object it has created, and Establish
+// builds the reference from that object).
+type c16XRef struct {
+	Key    string `json:"key"`
+	Kinded bool   `json:"kinded"`
+}
+
+type c16RevState struct {
+	UID  int       `json:"uid"`
+	Refs []c16XRef `json:"refs"`
+}
+
 type c16Step struct {
-	Op        string     `json:"op"` // establish | release
+	Op        string     `json:"op"` // establish | release | reconcile
 	Parent    c16Parent  `json:"parent"`
-	Control   bool       `json:"control"`
+	Control   bool       `json:"control"` // establish: control; reconcile: desiredState == Active
 	Objs      []c16Des   `json:"objs"`
-	Refs      []string   `json:"refs"` // release: status.objectRefs
+	Refs      []c16XRef  `json:"refs"` // release: status.objectRefs
 	Faults    []c16Fault `json:"faults"`
 	RejBodies []int      `json:"rejBodies"`
 	RejKeys   []string   `json:"rejKeys"`
@@ -89,8 +97,9 @@ type c16Step struct {
 }
 
 type c16Scn struct {
-	Store []c16Obj  `json:"store"`
-	Steps []c16Step `json:"steps"`
+	Store []c16Obj      `json:"store"`
+	Revs  []c16RevState `json:"revs"` // status.objectRefs of the revisions (reconcile steps)
+	Steps []c16Step     `json:"steps"`
 }
 
 // ---------------------------------------------------------------- observation
@@ -102,9 +111,14 @@ type c16Log struct {
 	Changed bool   `json:"changed"`
 }
 
+type c16RefObs struct {
+	Name   string `json:"name"`
+	Kinded bool   `json:"kinded"`
+}
+
 type c16StepObs struct {
-	Result string   `json:"result"` // ok | err | crash
-	Refs   []string `json:"refs"`
+	Result string      `json:"result"` // ok | err | crash
+	Refs   []c16RefObs `json:"refs"`   // establish: returned refs; reconcile: status.objectRefs afterwards (sorted)
 	Store  []c16Obj `json:"store"`
 	Log    []c16Log `json:"log"` // non-dry-run writes of this step
 }
@@ -260,661 +274,3 @@ func c16Snapshot(st *Store) []c16Obj {
 	return out
 }
 
-// ---------------------------------------------------------------- instrumented client
-
-type c16Call struct {
-	Verb  string
-	Key   string
-	Dry   bool
-	Body  int
-	Idx   int // object / ref index the call belongs to (-1 unknown)
-	Phase string
-}
-
-// c16Client serialises calls into simstore and lets the fault plan see the
-// submitted object (body) so that a deterministic "the API server rejects this
-// object" predicate can be injected for dry-run and real calls alike.
-type c16Client struct {
-	*Store
-	mu      sync.Mutex
-	pending int // body of the object being submitted
-	calls   []c16Call
-	step    *c16Step
-	seen    map[string]int // key|phase -> number of calls so far (duplicate resolution)
-}
-
-func (c *c16Client) Get(ctx context.Context, key client.ObjectKey, obj client.Object, opts ...client.GetOption) error {
-	c.mu.Lock()
-	defer c.mu.Unlock()
-	c.pending = -1
-	return c.Store.Get(ctx, key, obj, opts...)
-}
-
-func (c *c16Client) Create(ctx context.Context, obj client.Object, opts ...client.CreateOption) error {
-	c.mu.Lock()
-	defer c.mu.Unlock()
-	c.pending = c16BodyOf(obj)
-	return c.Store.Create(ctx, obj, opts...)
-}
-
-func (c *c16Client) Update(ctx context.Context, obj client.Object, opts ...client.UpdateOption) error {
-	c.mu.Lock()
-	defer c.mu.Unlock()
-	c.pending = c16BodyOf(obj)
-	return c.Store.Update(ctx, obj, opts...)
-}
-
-func c16Outcome(s string) Outcome {
-	switch s {
-	case "fail":
-		return Fail
-	case "conflict":
-		return Conflict
-	case "crashBefore":
-		return CrashBefore
-	case "crashAfter":
-		return CrashAfter
-	}
-	return OK
-}
-
-// plan is installed as st.Plan for one step. Called with c.mu held.
-func (c *c16Client) plan(ci CallInfo) Outcome {
-	s := c.step
-	key := c16KeyOf(ci.GK, ci.Name)
-	phase := "real"
-	if ci.Verb == "get" {
-		phase = "get"
-	} else if ci.DryRun {
-		phase = "dry"
-	}
-	// which object / ref index does this call belong to?
-	var cands []int
-	if s.Op == "release" {
-		for i, k := range s.Refs {
-			if k == key {
-				cands = append(cands, i)
-			}
-		}
-	} else {
-		for i, d := range s.Objs {
-			if d.Key == key {
-				cands = append(cands, i)
-			}
-		}
-	}
-	idx := -1
-	if len(cands) > 0 {
-		n := c.seen[key+"|"+phase]
-		c.seen[key+"|"+phase] = n + 1
-		if n < len(cands) {
-			idx = cands[n]
-		} else {
-			idx = cands[len(cands)-1]
-		}
-	}
-	c.calls = append(c.calls, c16Call{Verb: ci.Verb, Key: key, Dry: ci.DryRun, Body: c.pending, Idx: idx, Phase: phase})
-	if ci.IsWrite() {
-		for _, b := range s.RejBodies {
-			if b == c.pending {
-				return Fail
-			}
-		}
-		for _, k := range s.RejKeys {
-			if k == key {
-				return Fail
-			}
-		}
-	}
-	for _, f := range s.Faults {
-		if f.I == idx && f.Phase == phase {
-			return c16Outcome(f.Out)
-		}
-	}
-	return OK
-}
-
-// ---------------------------------------------------------------- running one scenario
-
-func c16Seed(st *Store, objs []c16Obj) {
-	for _, o := range objs {
-		t := c16Build(o.Key, o.Body)
-		t.SetOwnerReferences(c16MkRefs(o.Owners))
-		st.Seed(t)
-	}
-}
-
-func c16RefsOf(keys []string) []xpv1.TypedReference {
-	var out []xpv1.TypedReference
-	for _, k := range keys {
-		kind, name := c16SplitKey(k)
-		gvk := xv1.CompositionGroupVersionKind
-		if kind == "XRD" {
-			gvk = xv1.CompositeResourceDefinitionGroupVersionKind
-		}
-		av, kd := gvk.ToAPIVersionAndKind()
-		out = append(out, xpv1.TypedReference{APIVersion: av, Kind: kd, Name: name})
-	}
-	return out
-}
-
-// firstOrder lists the indices in order of first appearance in calls of the
-// given phase, then the remaining indices ascending.
-func c16FirstOrder(calls []c16Call, phase string, n int) []int {
-	out := []int{}
-	seen := map[int]bool{}
-	for _, c := range calls {
-		if c.Phase == phase && c.Idx >= 0 && !seen[c.Idx] {
-			seen[c.Idx] = true
-			out = append(out, c.Idx)
-		}
-	}
-	for i := 0; i < n; i++ {
-		if !seen[i] {
-			out = append(out, i)
-		}
-	}
-	return out
-}
-
-func c16RunStep(st *Store, s *c16Step) (c16StepObs, []c16Call) {
-	cl := &c16Client{Store: st, step: s, seen: map[string]int{}, pending: -1}
-	st.Revive()
-	st.Log = nil
-	st.Plan = cl.plan
-	conc := s.Conc
-	if conc < 1 {
-		conc = 1
-	}
-	e := revision.NewAPIEstablisher(cl, "crossplane-system", conc)
-	parent := c16ParentObj(s.Parent)
-	obs := c16StepObs{Refs: []string{}, Log: []c16Log{}}
-	var err error
-	var panicked string
-	switch s.Op {
-	case "release":
-		parent.SetObjects(c16RefsOf(s.Refs))
-		panicked = Guard(func() { err = e.ReleaseObjects(context.Background(), parent) })
-	default:
-		var objs []runtime.Object
-		for _, d := range s.Objs {
-			objs = append(objs, c16Build(d.Key, d.Body))
-		}
-		var refs []xpv1.TypedReference
-		panicked = Guard(func() { refs, err = e.Establish(context.Background(), objs, parent, s.Control) })
-		if err == nil {
-			for _, r := range refs {
-				// The kind of a reference is not compared: the typed client (and
-				// simstore) clear TypeMeta on objects they decode into.
-				obs.Refs = append(obs.Refs, r.Name)
-			}
-			sort.Strings(obs.Refs)
-		}
-	}
-	st.Plan = nil
-	switch {
-	case panicked != "":
-		obs.Result = "panic: " + panicked
-	case st.Crashed():
-		obs.Result = "crash"
-		obs.Refs = []string{}
-	case err != nil:
-		obs.Result = "err"
-	default:
-		obs.Result = "ok"
-	}
-	for _, c := range st.Log {
-		if !c.IsWrite() || c.DryRun {
-			continue
-		}
-		obs.Log = append(obs.Log, c16Log{Verb: c.Verb, Key: c16KeyOf(c.GK, c.Name), Err: c.Err, Changed: c.Changed})
-	}
-	if conc > 1 {
-		sort.SliceStable(obs.Log, func(i, j int) bool {
-			a, b := obs.Log[i], obs.Log[j]
-			if a.Key != b.Key {
-				return a.Key < b.Key
-			}
-			return a.Verb < b.Verb
-		})
-	}
-	st.Revive()
-	obs.Store = c16Snapshot(st)
-	// what the model must be told
-	if s.Op == "release" {
-		s.Ran = make([]bool, len(s.Refs))
-		for _, c := range cl.calls {
-			if c.Phase == "get" && c.Idx >= 0 {
-				s.Ran[c.Idx] = true
-			}
-		}
-		s.VOrder, s.EOrder = []int{}, []int{}
-	} else {
-		s.VOrder = c16FirstOrder(cl.calls, "get", len(s.Objs))
-		s.EOrder = c16FirstOrder(cl.calls, "real", len(s.Objs))
-		s.Ran = []bool{}
-	}
-	return obs, cl.calls
-}
-
-func c16Run(scn *c16Scn) (c16Obs, []Mon) {
-	st := NewStore(c16Scheme)
-	c16Seed(st, scn.Store)
-	obs := c16Obs{Steps: []c16StepObs{}}
-	var mons []Mon
-	for i := range scn.Steps {
-		before := c16Snapshot(st)
-		so, calls := c16RunStep(st, &scn.Steps[i])
-		obs.Steps = append(obs.Steps, so)
-		mons = append(mons, c16Monitor(&scn.Steps[i], before, so, calls)...)
-	}
-	return obs, mons
-}
-
-// ---------------------------------------------------------------- direct monitors
-
-func c16Find(objs []c16Obj, key string) *c16Obj {
-	for i := range objs {
-		if objs[i].Key == key {
-			return &objs[i]
-		}
-	}
-	return nil
-}
-
-func c16PkgRef(p c16Parent) (c16PRef, bool) {
-	for _, r := range p.Owners {
-		if r.Name == p.Label {
-			return r, true
-		}
-	}
-	return c16PRef{}, false
-}
-
-func c16Same(a, b c16Obj) bool { return mustJSON(a) == mustJSON(b) }
-
-func c16HasUID(o *c16Obj, uid int) *c16Ref {
-	for i := range o.Owners {
-		if o.Owners[i].UID == uid {
-			return &o.Owners[i]
-		}
-	}
-	return nil
-}
-
-func c16InInts(xs []int, x int) bool {
-	for _, y := range xs {
-		if x == y {
-			return true
-		}
-	}
-	return false
-}
-
-func c16InStrs(xs []string, x string) bool {
-	for _, y := range xs {
-		if x == y {
-			return true
-		}
-	}
-	return false
-}
-
-// c16Monitor evaluates the property itself on the real run of one step.
-func c16Monitor(s *c16Step, before []c16Obj, so c16StepObs, calls []c16Call) []Mon {
-	var mons []Mon
-	add := func(sig, why string) { mons = append(mons, Mon{Sig: sig, Why: why}) }
-	if strings.HasPrefix(so.Result, "panic") {
-		add("C16:panic", so.Result)
-		return mons
-	}
-	after := so.Store
-	pkg, hasPkg := c16PkgRef(s.Parent)
-	changed := func(o c16Obj) bool {
-		b := c16Find(before, o.Key)
-		return b == nil || !c16Same(*b, o)
-	}
-	// nothing is ever deleted and no owner entry is ever dropped
-	for _, b := range before {
-		a := c16Find(after, b.Key)
-		if a == nil {
-			add("C16:object-deleted", b.Key+" disappeared")
-			continue
-		}
-		for _, r := range b.Owners {
-			if c16HasUID(a, r.UID) == nil {
-				add("C16:owner-entry-dropped", fmt.Sprintf("%s lost its owner entry for uid %d (op %s)", b.Key, r.UID, s.Op))
-			}
-		}
-	}
-	if s.Op == "release" {
-		for _, a := range after {
-			if !changed(a) {
-				continue
-			}
-			if r := c16HasUID(&a, s.Parent.UID); r == nil || r.Ctrl == "true" {
-				add("C16:release-kept-control", a.Key+" written by ReleaseObjects but the revision is still controller or not an owner")
-			}
-		}
-		if so.Result == "ok" {
-			for _, k := range s.Refs {
-				a := c16Find(after, k)
-				if a == nil {
-					continue
-				}
-				if r := c16HasUID(a, s.Parent.UID); r == nil || r.Ctrl == "true" {
-					add("C16:release-kept-control", k+" after a successful release: revision is still controller or not an owner")
-				}
-			}
-		}
-		return mons
-	}
-	// establish ---------------------------------------------------------
-	// (1) all-or-nothing, decided from the pre-state only
-	blocked := ""
-	for _, d := range s.Objs {
-		cur := c16Find(before, d.Key)
-		if s.Control && cur != nil {
-			for _, r := range cur.Owners {
-				if r.Ctrl == "true" && r.UID != s.Parent.UID && !(hasPkg && r.UID == pkg.UID) {
-					blocked = fmt.Sprintf("%s is controlled by uid %d", d.Key, r.UID)
-				}
-			}
-		}
-		submits := cur != nil || s.Control
-		if submits && c16InStrs(s.RejKeys, d.Key) {
-			blocked = d.Key + " is rejected by the API server (key)"
-		}
-		body := d.Body
-		if !s.Control && cur != nil {
-			body = cur.Body
-		}
-		if submits && c16InInts(s.RejBodies, body) {
-			blocked = fmt.Sprintf("%s is rejected by the API server (body %d)", d.Key, body)
-		}
-	}
-	if blocked != "" {
-		if so.Result == "ok" {
-			add("C16:established-despite-blocked", blocked+" but Establish reported success")
-		}
-		if len(so.Log) > 0 || mustJSON(before) != mustJSON(after) {
-			add("C16:partial-establish", blocked+" but objects were created or modified: "+mustJSON(so.Log))
-		}
-	}
-	// (2) a failure in the dry-run phase means nothing was written
-	realSeen := false
-	for _, c := range calls {
-		if c.Phase == "real" {
-			realSeen = true
-		}
-		if c.Phase != "real" && realSeen && c.Verb != "get" && s.Conc == 1 {
-			add("C16:dry-run-after-real", "a dry-run call was issued after a real write")
-		}
-	}
-	// (3) role laws on every object the step wrote
-	for _, a := range after {
-		b := c16Find(before, a.Key)
-		if b == nil {
-			if !s.Control {
-				add("C16:inactive-created", a.Key+" was created by an inactive revision")
-			}
-		}
-		if !changed(a) {
-			continue
-		}
-		me := c16HasUID(&a, s.Parent.UID)
-		if s.Control {
-			if me == nil || me.Ctrl != "true" {
-				add("C16:active-not-controller", a.Key+" written by an active revision which is not its controller")
-			}
-		} else {
-			if me == nil {
-				add("C16:inactive-not-owner", a.Key+" written by an inactive revision which is not an owner")
-			} else if me.Ctrl == "true" {
-				add("C16:inactive-controls", a.Key+" written by an inactive revision which is its controller")
-			}
-			if b != nil && b.Body != a.Body {
-				add("C16:inactive-modified-content", a.Key+" content changed by an inactive revision")
-			}
-		}
-		if hasPkg && pkg.UID != s.Parent.UID {
-			if pr := c16HasUID(&a, pkg.UID); pr == nil || pr.Ctrl == "true" {
-				add("C16:package-owner-missing", a.Key+" was written without the package as non-controlling owner")
-			}
-		}
-		n := 0
-		for _, r := range a.Owners {
-			if r.Ctrl == "true" {
-				n++
-			}
-		}
-		if n > 1 {
-			add("C16:two-controllers", a.Key)
-		}
-	}
-	// (4) a successful active establish controls every object of the package
-	if so.Result == "ok" {
-		for _, d := range s.Objs {
-			a := c16Find(after, d.Key)
-			if s.Control {
-				if a == nil {
-					add("C16:active-not-controller", d.Key+" missing after a successful establish")
-				} else if me := c16HasUID(a, s.Parent.UID); me == nil || me.Ctrl != "true" {
-					add("C16:active-not-controller", d.Key+" not controlled after a successful establish")
-				}
-			} else if a != nil {
-				if me := c16HasUID(a, s.Parent.UID); me == nil || me.Ctrl == "true" {
-					add("C16:inactive-not-owner", d.Key+" not plainly owned after a successful inactive establish")
-				}
-			}
-		}
-	}
-	return mons
-}
-
-// ---------------------------------------------------------------- generator
-
-var (
-	c16Keys = []string{"Composition/a", "Composition/b", "Composition/c", "XRD/a", "XRD/d", "Composition/e"}
-)
-
-func c16GenParent(r *Rng, uid int) c16Parent {
-	pkgUID := uid / 10
-	_, _, pkgName := c16OwnerIdent(pkgUID)
-	p := c16Parent{UID: uid, Label: pkgName, Owners: []c16PRef{}}
-	switch r.Intn(10) {
-	case 0: // no owner reference to the package at all
-	case 1: // label does not match
-		p.Owners = append(p.Owners, c16PRef{Name: pkgName, UID: pkgUID, Ctrl: "true", Block: "true"})
-		p.Label = ""
-	case 2: // an unrelated owner first
-		p.Owners = append(p.Owners, c16PRef{Name: "someone", UID: 95, Ctrl: "nil", Block: "nil"}, c16PRef{Name: pkgName, UID: pkgUID, Ctrl: "true", Block: "true"})
-	default:
-		p.Owners = append(p.Owners, c16PRef{Name: pkgName, UID: pkgUID, Ctrl: "true", Block: "true"})
-	}
-	return p
-}
-
-// c16GenOwners draws a pre-existing owner state for an object, relative to the
-// revision `me` (uid) of package me/10.
-func c16GenOwners(r *Rng, me int) ([]c16Ref, string) {
-	pkg := me / 10
-	prev := pkg*10 + (me%10+1)%3
-	otherPkg := 3 - pkg
-	otherRev := otherPkg*10 + r.Intn(2)
-	var out []c16Ref
-	cls := ""
-	switch r.Intn(9) {
-	case 0:
-		cls = "uncontrolled"
-	case 1:
-		cls = "uncontrolled+pkg"
-		out = append(out, c16Ref{pkg, "false", "true"})
-	case 2:
-		cls = "prevrev"
-		out = append(out, c16Ref{prev, "true", "true"}, c16Ref{pkg, "false", "true"})
-	case 3:
-		cls = "prevrev-released"
-		out = append(out, c16Ref{prev, "false", "true"}, c16Ref{pkg, "false", "true"})
-	case 4:
-		cls = "otherpkg"
-		out = append(out, c16Ref{otherRev, "true", "true"}, c16Ref{otherPkg, "false", "true"})
-	case 5:
-		cls = "self"
-		out = append(out, c16Ref{me, "true", "true"}, c16Ref{pkg, "false", "true"})
-	case 6:
-		cls = "self-plain"
-		out = append(out, c16Ref{pkg, "false", "true"}, c16Ref{me, Pick(r, []string{"nil", "false"}), Pick(r, []string{"nil", "true"})})
-	case 7:
-		cls = "foreign"
-		out = append(out, c16Ref{90, "true", Pick(r, []string{"nil", "true"})})
-	case 8:
-		cls = "pkg-controls"
-		out = append(out, c16Ref{pkg, "true", "true"})
-	}
-	if r.Chance(1, 6) {
-		out = append(out, c16Ref{91, "nil", "nil"})
-	}
-	return out, cls
-}
-
-func c16GenFaults(r *Rng, n int, phases []string, crash bool) []c16Fault {
-	fs := []c16Fault{}
-	if n == 0 {
-		return fs
-	}
-	outs := []string{"fail", "fail", "conflict"}
-	if crash {
-		outs = append(outs, "crashBefore", "crashAfter")
-	}
-	for k, m := 0, r.Range(1, 2); k < m; k++ {
-		fs = append(fs, c16Fault{I: r.Intn(n), Phase: Pick(r, phases), Out: Pick(r, outs)})
-	}
-	return fs
-}
-
-func c16GenEstablish(r *Rng, store *[]c16Obj, cls *[]string) c16Step {
-	me := Pick(r, []int{10, 11, 12, 20, 21})
-	s := c16Step{Op: "establish", Parent: c16GenParent(r, me), Control: r.Chance(3, 5), Objs: []c16Des{}, Refs: []string{}, Faults: []c16Fault{}, RejBodies: []int{}, RejKeys: []string{}, VOrder: []int{}, EOrder: []int{}, Ran: []bool{}}
-	s.Conc = Pick(r, []int{1, 1, 2, 4})
-	n := r.Range(0, 5)
-	perm := r.Perm(len(c16Keys))
-	for i := 0; i < n; i++ {
-		s.Objs = append(s.Objs, c16Des{Key: c16Keys[perm[i]], Body: r.Range(1, 4)})
-	}
-	dup := false
-	if n > 0 && s.Conc == 1 && r.Chance(1, 12) {
-		// a poorly formed package: the same object twice
-		d := s.Objs[r.Intn(n)]
-		if r.Bool() {
-			d.Body = r.Range(1, 4)
-		}
-		s.Objs = append(s.Objs, d)
-		dup = true
-	}
-	states := map[string]bool{}
-	for _, d := range s.Objs {
-		if c16Find(*store, d.Key) != nil {
-			continue
-		}
-		if r.Chance(2, 5) {
-			states["absent"] = true
-			continue
-		}
-		ow, c := c16GenOwners(r, me)
-		states[c] = true
-		body := d.Body
-		if r.Bool() {
-			body = r.Range(1, 4)
-		}
-		*store = append(*store, c16Obj{Key: d.Key, Body: body, Owners: ow})
-	}
-	fk := "none"
-	switch r.Intn(8) {
-	case 0:
-		s.RejBodies = append(s.RejBodies, r.Range(1, 4))
-		fk = "rejBody"
-	case 1:
-		if len(s.Objs) > 0 {
-			s.RejKeys = append(s.RejKeys, s.Objs[r.Intn(len(s.Objs))].Key)
-			fk = "rejKey"
-		}
-	case 2, 3:
-		// transient faults: keyed by (object, phase); crashes only sequentially
-		s.Faults = c16GenFaults(r, len(s.Objs), []string{"get", "dry", "real", "real"}, s.Conc == 1)
-		if len(s.Faults) > 0 {
-			fk = "fault-" + s.Faults[0].Phase + "-" + s.Faults[0].Out
-		}
-	}
-	var ks []string
-	for k := range states {
-		ks = append(ks, k)
-	}
-	sort.Strings(ks)
-	*cls = append(*cls, fmt.Sprintf("est/ctl=%v/n=%d/conc=%d/dup=%v/%s/pre=%s", s.Control, len(s.Objs), s.Conc, dup, fk, strings.Join(ks, "+")))
-	return s
-}
-
-func c16GenRelease(r *Rng, store *[]c16Obj, cls *[]string) c16Step {
-	me := Pick(r, []int{10, 11, 12, 20, 21})
-	s := c16Step{Op: "release", Parent: c16GenParent(r, me), Objs: []c16Des{}, Refs: []string{}, Faults: []c16Fault{}, RejBodies: []int{}, RejKeys: []string{}, VOrder: []int{}, EOrder: []int{}, Ran: []bool{}}
-	n := r.Range(0, 5)
-	perm := r.Perm(len(c16Keys))
-	for i := 0; i < n; i++ {
-		s.Refs = append(s.Refs, c16Keys[perm[i]])
-	}
-	for _, k := range s.Refs {
-		if c16Find(*store, k) != nil || r.Chance(1, 5) {
-			continue
-		}
-		ow, _ := c16GenOwners(r, me)
-		*store = append(*store, c16Obj{Key: k, Body: r.Range(1, 4), Owners: ow})
-	}
-	fk := "none"
-	s.Conc = Pick(r, []int{1, 2, 4})
-	switch r.Intn(6) {
-	case 0:
-		if n > 0 {
-			s.RejKeys = append(s.RejKeys, s.Refs[r.Intn(n)])
-			fk = "rejKey"
-			s.Conc = 1
-		}
-	case 1, 2:
-		s.Faults = c16GenFaults(r, n, []string{"get", "real"}, true)
-		if len(s.Faults) > 0 {
-			fk = "fault-" + s.Faults[0].Phase + "-" + s.Faults[0].Out
-			s.Conc = 1
-		}
-	}
-	*cls = append(*cls, fmt.Sprintf("rel/n=%d/conc=%d/%s", n, s.Conc, fk))
-	return s
-}
-
-func c16Gen(r *Rng) (c16Scn, string) {
-	scn := c16Scn{Store: []c16Obj{}, Steps: []c16Step{}}
-	var cls []string
-	if r.Chance(1, 3) {
-		scn.Steps = append(scn.Steps, c16GenRelease(r, &scn.Store, &cls))
-	} else {
-		scn.Steps = append(scn.Steps, c16GenEstablish(r, &scn.Store, &cls))
-	}
-	sort.Slice(scn.Store, func(i, j int) bool { return scn.Store[i].Key < scn.Store[j].Key })
-	return scn, strings.Join(cls, ";")
-}
-
-func init() {
-	Register("C16", func(c *Ctx) {
-		for _, raw := range c.Corpus {
-			var s c16Scn
-			if err := jsonUnmarshalStrict(raw, &s); err == nil && len(s.Steps) > 0 {
-				obs, mons := c16Run(&s)
-				c.Emit(s, obs, mons, "corpus")
-			}
-		}
-		for i := 0; i < c.N; i++ {
-			s, cls := c16Gen(c.Rng)
-			obs, mons := c16Run(&s)
-			c.Emit(s, obs, mons, cls)
-		}
-	})
-}
